@@ -95,7 +95,7 @@ fn main() {
             let mut sum = supervisor::BatchSummary::new();
             let mut counts: std::collections::BTreeMap<String, u64> = Default::default();
             for (i, o) in outs.iter().enumerate() {
-                sum.add(i, &jobs[i], o);
+                sum.add(i, jobs[i].seed(), o);
                 for v in supervisor::outcome_violations(&jobs[i], o) {
                     *counts.entry(v.kind).or_insert(0) += 1;
                 }
